@@ -84,7 +84,10 @@ LookupUid(node) == IF "S6a" \in Bugs THEN Out(IEff(mnt[node].idx), mnt[node].rui
 GetattrUid(idx) == Out(IEff(idx), RootUid)                           \* convert_attr
 CtxIdx(n) == IF n = RootNode /\ "RM" \in Bugs THEN 0 ELSE mnt[n].idx               \* remap_ctx_ids: index bits of the node id
 CtxUid(n) == In(IEff(CtxIdx(n)), TestUid)
-Obs == [n \in DOMAIN mnt |-> [idx |-> mnt[n].idx, lk |-> IdN(LookupUid(n)), ga |-> IdN(GetattrUid(mnt[n].idx)),
+\* the lookup of a mount point goes through lookup_pseudo; for a mount on "/" that is only reachable as ".." of a
+\* pseudo directory below the root (`via` = such a directory, 0 if there is none: then no client can observe it)
+Via(n) == IF n # RootNode THEN n ELSE IF ipn[RootNode].kids = <<>> THEN 0 ELSE ipn[RootNode].kids[1]
+Obs == [n \in DOMAIN mnt |-> [idx |-> mnt[n].idx, par |-> ipn[n].parent, name |-> ipn[n].name, via |-> Via(n), lk |-> IdN(LookupUid(n)), ga |-> IdN(GetattrUid(mnt[n].idx)),
                               rp |-> IdN(mnt[n].ruid),
                               cx |-> IdN(CtxUid(n))]]
 ObsSeq == LET D == DOMAIN mnt
@@ -97,34 +100,35 @@ Log(step) == /\ hist' = IF KeepHist THEN Append(hist, step @@ [obs |-> ObsSeq'])
 
 \* mount_with_id_mapping (fs.mount() succeeded, max inode fits)
 IMount(p, b, m) ==
-  LET a == Alloc IN
+  \E a \in {Alloc} :
   IF a.idx = N
   THEN \* "vfs maximum mountpoints reached"; next_super has moved on
        /\ nexts' = a.next /\ aok' = AMountFailPre(TRUE, TRUE)
        /\ UNCHANGED <<avars, sb, mnt, smap, cmap, omap, ipn, inext, iinit, inempty, dirty, restored>>
        /\ Log([op |-> "mount", path |-> PathStr(p), b |-> b, m |-> MapRec(m), idx |-> -1])
-  ELSE LET idx == a.idx
-           sm1 == IF IsMap(m) \/ "S6b" \notin Bugs THEN [smap EXCEPT ![idx] = Canon(m)] ELSE smap   \* stored only for Some
-       IN IF p = BadPath
+  ELSE \E idx \in {a.idx} :
+       \E sm1 \in {IF IsMap(m) \/ "S6b" \notin Bugs THEN [smap EXCEPT ![idx] = Canon(m)] ELSE smap} :   \* stored only for Some
+          IF p = BadPath
           THEN \* insert_mount_locked: self.root.mount(path)? fails with EINVAL; index and mapping already taken
                /\ nexts' = a.next /\ smap' = sm1 /\ aok' = AMountFailPre(FALSE, TRUE)
                /\ dirty' = [dirty EXCEPT ![idx] = @ \/ IsMap(m)]
                /\ UNCHANGED <<avars, sb, mnt, cmap, omap, ipn, inext, iinit, inempty, restored>>
                /\ Log([op |-> "mount", path |-> PathStr(p), b |-> b, m |-> MapRec(m), idx |-> -1])
-          ELSE LET r == MkT(ipn, inext, RootNode, p)
-                   node == r.node
-                   ruid == Out(EffW(sm1, cmap, idx), RootUid)               \* convert_entry at mount time
-                   over == node \in DOMAIN mnt
-                   s1 == IF over THEN [sb EXCEPT ![mnt[node].idx] = Vacant] ELSE sb    \* mapping of that slot stays
-               IN /\ nexts' = a.next /\ smap' = sm1
+          ELSE \E r \in {MkT(ipn, inext, RootNode, p)} :
+               \E node \in {r.node} :
+               \E ruid \in {Out(EffW(sm1, cmap, idx), RootUid)} :               \* convert_entry at mount time
+               \E over \in {node \in DOMAIN mnt} :
+               \E oldi \in {IF over THEN mnt[node].idx ELSE 0} :
+                  /\ nexts' = a.next
+                  /\ smap' = IF over /\ "S6b" \notin Bugs THEN [sm1 EXCEPT ![oldi] = NoMap] ELSE sm1
                   /\ ipn' = r.t /\ inext' = r.next
-                  /\ sb' = [s1 EXCEPT ![idx] = b]
+                  /\ sb' = [i \in 0..N-1 |-> IF i = idx THEN b ELSE IF over /\ i = oldi THEN Vacant ELSE sb[i]]   \* mapping of that slot stays
                   /\ mnt' = (node :> [idx |-> idx, root |-> RootLow, ruid |-> ruid]) @@ mnt
                   /\ aok' = AMountPre(idx)
                   /\ AMountEff(p, b, m, RootRec, idx)
                   /\ dirty' = [i \in 0..N-1 |->
                                  IF i = idx THEN (dirty[i] /\ ~IsMap(m))                  \* a given mapping overwrites
-                                 ELSE IF over /\ i = mnt[node].idx THEN (IsMap(given[i]) \/ dirty[i])   \* left behind by the over-mount
+                                 ELSE IF over /\ i = oldi THEN (IsMap(given[i]) \/ dirty[i])   \* left behind by the over-mount
                                  ELSE dirty[i]]
                   /\ UNCHANGED <<cmap, omap, iinit, inempty, restored>>
                   /\ Log([op |-> "mount", path |-> PathStr(p), b |-> b, m |-> MapRec(m), idx |-> idx])
@@ -187,12 +191,11 @@ Init ==
   /\ aok = TRUE /\ dirty = [i \in 0..N-1 |-> FALSE] /\ restored = FALSE
   /\ hist = <<>> /\ nops = 0
 
-Next ==
-  /\ nops < MaxOps
-  /\ \/ \E p \in Paths \cup {BadPath}, b \in Backends, m \in Maps \cup {NoMap} : IMount(p, b, m)
-     \/ \E p \in Paths : IUmount(p)
-     \/ \E e \in BOOLEAN : IInit(e)
-     \/ WithPersist /\ ISaveRestore
+DoMount == nops < MaxOps /\ \E p \in Paths \cup {BadPath}, b \in Backends, m \in Maps \cup {NoMap} : IMount(p, b, m)
+DoUmount == nops < MaxOps /\ \E p \in Paths : IUmount(p)
+DoInit == nops < MaxOps /\ \E e \in BOOLEAN : IInit(e)
+DoSaveRestore == nops < MaxOps /\ WithPersist /\ ISaveRestore
+Next == DoMount \/ DoUmount \/ DoInit \/ DoSaveRestore
 Spec == Init /\ [][Next]_vars
 
 (* ---------------- known findings, as predicates over A-level terms ---------------- *)
@@ -231,7 +234,7 @@ CtxRight == IsMp(RootNode) /\ ~KnownRM /\ ~KnownS7a(mp[RootNode]) /\ ~KnownS6b(m
                => IEff(CtxIdx(RootNode)) = AEff(mp[RootNode])
 \* owner of a mount root, as seen by lookup of the mount point / readdirplus of its parent / getattr
 RootOnce == \A n \in DOMAIN mnt : LET i == mnt[n].idx IN
-               ~KnownS6a(i) /\ ~KnownS6b(i) /\ ~KnownS7a(i) => LookupUid(n) = Out(AEff(i), RootUid)
+               Via(n) # 0 /\ ~KnownS6a(i) /\ ~KnownS6b(i) /\ ~KnownS7a(i) => LookupUid(n) = Out(AEff(i), RootUid)
 RootPlus == \A n \in DOMAIN mnt : LET i == mnt[n].idx IN
                ~KnownS6b(i) /\ ~KnownS7a(i) => mnt[n].ruid = Out(AEff(i), RootUid)
 InitRight == KnownS7bHit \/ iinit = inited
